@@ -1,7 +1,94 @@
+import MythVerif.Model.DagRec
 import Driver.Util
-/-! `drv_dag`: stub, to be filled in -/
+/-! `drv_dag`: the DAG Recorder model (C18, C19) behind a line protocol.
+
+  tree V STARTCLOCK ROOTFILE ROOTLINE <captured tree tokens>   load an execution (V = fixed | pinned)
+  rec UMIN CMAX CMAXCOUNT NCT PRUNE      run the recorder model under these options -> root info
+  leaves                                 est / in_edge_kind / first_ready_t of every interval
+  flat                                   the flat-interval-list specification of the totals
+-/
 namespace Driver.Dag
+open MythVerif MythVerif.DagRec
+
+structure St where
+  v : Variant := .fixed
+  startClock : Nat := 0
+  tree : Tree := .group .task .nil
+  dag : DNode := .ival {}
+
+def nkOf : Nat → NKind
+  | 0 => .createTask | 1 => .waitTasks | 2 => .other | 3 => .endTask | 4 => .section | _ => .task
+
+def forestOf : List Tree → Forest
+  | [] => .nil
+  | t :: ts => .cons t (forestOf ts)
+
+def natOf (s : String) : Nat := s.toNat?.getD 0
+
+/-- parse one group (after its opening `T` / `S`), returning its children and the remaining tokens -/
+partial def parseItems : List String → List Tree → Option (List Tree × List String)
+  | "." :: rest, acc => some (acc.reverse, rest)
+  | "I" :: k :: st :: et :: w :: sf :: sl :: ef :: el :: rest, acc =>
+    let r : Raw := { startT := natOf st, endT := natOf et, worker := natOf w,
+                     spos := ⟨natOf sf, natOf sl⟩, epos := ⟨natOf ef, natOf el⟩ }
+    parseItems rest (.ival (nkOf (natOf k)) r :: acc)
+  | "C" :: _ :: st :: et :: w :: sf :: sl :: ef :: el :: "T" :: rest, acc =>
+    let r : Raw := { startT := natOf st, endT := natOf et, worker := natOf w,
+                     spos := ⟨natOf sf, natOf sl⟩, epos := ⟨natOf ef, natOf el⟩ }
+    match parseItems rest [] with
+    | some (ch, rest') => parseItems rest' (.create r (.group .task (forestOf ch)) :: acc)
+    | none => none
+  | "S" :: rest, acc =>
+    match parseItems rest [] with
+    | some (ch, rest') => parseItems rest' (.group .section (forestOf ch) :: acc)
+    | none => none
+  | _, _ => none
+
+def showInfo (i : Info) : String :=
+  let c := i.c
+  joinSp ([c.kind.toNat, c.inEdgeKind.toNat, c.start.t, c.end_.t, c.est, c.t1, c.tinf, c.firstReadyT, c.lastStartT,
+           c.tReady.end_, c.tReady.create, c.tReady.createCont, c.tReady.waitCont, c.tReady.otherCont,
+           c.nc.create, c.nc.wait, c.nc.other, c.nc.endT,
+           c.ec.end_, c.ec.create, c.ec.createCont, c.ec.waitCont, c.ec.otherCont,
+           i.cur, i.min, c.nChild].map toString
+          ++ [toString c.worker, toString c.start.worker, toString c.end_.worker])
+
+def step (s : St) (line : String) : St × String :=
+  match Driver.words line with
+  | "tree" :: v :: sc :: rf :: rl :: "T" :: toks =>
+    match parseItems toks [] with
+    | some (ch, []) =>
+      -- the root task's own start position is the one given to dr_start__; it only shows in the
+      -- first interval's `start.pos`, which the capture already carries
+      let _ := (rf, rl)
+      let t := Tree.group .task (forestOf ch)
+      ({ s with v := if v == "pinned" then .pinned else .fixed, startClock := natOf sc, tree := t },
+       s!"ok {(leavesTree t).length} {wnTask t}")
+    | _ => (s, "bad-tree")
+  | ["rec", umin, cmax, cmc, nct, prune] =>
+    let o : Opts := { uncollapseMin := natOf umin, collapseMax := natOf cmax, collapseMaxCount := natOf cmc,
+                      nodeCountTarget := natOf nct, pruneThreshold := natOf prune }
+    let d := record s.v o s.startClock s.tree
+    ({ s with dag := d }, "root " ++ showInfo d.info ++ s!" count {d.count}")
+  | ["leaves"] =>
+    let ls := leafInfosTree s.v s.tree (rootCursor s.startClock)
+    (s, "leaves " ++ joinSp (ls.map fun i => s!"{i.c.est} {i.c.inEdgeKind.toNat} {i.c.firstReadyT}"))
+  | ["flat"] =>
+    let ls := leavesTree s.tree
+    let nc := flatNC ls
+    let ec := flatEC ls
+    let infos := leafInfosTree s.v s.tree (rootCursor s.startClock)
+    (s, s!"flat {flatWork ls} {maxFinish infos} {nc.create} {nc.wait} {nc.other} {nc.endT} {ec.end_} {ec.create} {ec.createCont} {ec.waitCont} {ec.otherCont}")
+  | _ => (s, "bad-op")
+
 def run (_args : List String) : IO UInt32 := do
-  IO.eprintln "drv_dag: not implemented"
-  return 2
+  let stdin ← IO.getStdin
+  let stdout ← IO.getStdout
+  let _ ← Driver.forLines stdin ({} : St) fun s line => do
+    let (s', out) := step s line
+    stdout.putStrLn out
+    pure s'
+  stdout.flush
+  return 0
+
 end Driver.Dag
